@@ -19,7 +19,8 @@ REPO = os.environ.get('VERIF_REPO', '/repo')
 CMP = {ast.Lt: '<?', ast.LtE: '<=?', ast.Gt: '>?', ast.GtE: '>=?', ast.Eq: '=?'}
 FILES = dict(ce='bionumpy/streams/chunk_entries.py', parser='bionumpy/io/parser.py', red='bionumpy/streams/reductions.py',
              cg='bionumpy/computation_graph.py', gb='bionumpy/streams/groupby_func.py',
-             gt='bionumpy/genomic_data/genomic_track.py')
+             gt='bionumpy/genomic_data/genomic_track.py', gi='bionumpy/genomic_data/genomic_intervals.py',
+             ai='bionumpy/arithmetics/intervals.py', cnt='bionumpy/sequence/count_encoded.py')
 
 
 def parse(rel):
@@ -600,6 +601,88 @@ def order_defs(defs):
     emit(defs, 'gen_stranded_forward_symbol_mem', in_memory)
 
 
+# ----------------------------------------------------------------------------- get_windows keyword forms, clip, blocked counting
+def window_defs(defs):
+    def parts(cls):
+        f = find_function(parse(FILES['gi']), cls + '.get_windows')
+        top = only([st for st in f.body if isinstance(st, ast.If) and src_of(st.test) == 'flank is not None'],
+                   '%s.get_windows: `if flank is not None`' % cls)
+        for n in ast.walk(f):
+            if isinstance(n, (ast.Assign, ast.AugAssign)):
+                for t in (n.targets if isinstance(n, ast.Assign) else [n.target]):
+                    if src_of(t) in ('flank', 'window_size'):
+                        raise Unsupported('%s.get_windows re-binds %s' % (cls, src_of(t)))
+        all_l = [n for n in ast.walk(f) if isinstance(n, ast.Assign) and src_of(n.targets[0]) == 'l_flank']
+        all_r = [n for n in ast.walk(f) if isinstance(n, ast.Assign) and src_of(n.targets[0]) == 'r_flank']
+        if len(all_l) != 2 or len(all_r) != 2:
+            raise Unsupported('%s.get_windows: l_flank / r_flank are not assigned once per keyword form' % cls)
+        return f, top
+    for cls, sfx in (('GenomicLocationStreamed', 'str'), ('GenomicLocationGlobal', 'mem')):
+        for side in ('l', 'r'):
+            for form, branch, param in (('f', 'body', 'flank'), ('w', 'orelse', 'window_size')):
+                name = 'gen_win_%s_%s_%s' % (side, form, sfx)
+
+                def one(cls=cls, side=side, branch=branch, param=param, name=name):
+                    f, top = parts(cls)
+                    v = only(assign_to(getattr(top, branch), side + '_flank'), '%s_flank in the %s branch' % (side, param))
+                    return zdef(name, [param], K(f, {}).z(v, [param]))
+                emit(defs, name, one)
+
+        def bounds(cls=cls, sfx=sfx):
+            f, _ = parts(cls)
+            calls = [n for n in ast.walk(f) if isinstance(n, ast.Call) and
+                     (src_of(n.func) == 'Interval' or (src_of(n.func) == 'ComputationNode' and n.args and src_of(n.args[0]) == 'Interval'))]
+            c = only(calls, '%s.get_windows: the unstranded Interval(...)' % cls)
+            args = c.args if src_of(c.func) == 'Interval' else c.args[1].elts
+            if len(args) != 3 or src_of(args[0]) != 'self.chromosome':
+                raise Unsupported('%s.get_windows: Interval arguments %s' % (cls, [src_of(a) for a in args]))
+            k = K(f, {'self.position': 'position'})
+            P = ['position', 'l_flank', 'r_flank']
+            return zdef('gen_win_lo_' + sfx, P, k.z(args[1], P)) + zdef('gen_win_hi_' + sfx, P, k.z(args[2], P))
+        emit(defs, 'gen_win_lo_' + sfx, bounds)
+
+    def clip():
+        f = find_function(parse(FILES['ai']), 'clip')
+        r = only([n for n in ast.walk(f) if isinstance(n, ast.Return)], 'clip: return')
+        c = r.value
+        if not (isinstance(c, ast.Call) and src_of(c.func) == 'replace' and [src_of(a) for a in c.args] == ['intervals']
+                and sorted(kw.arg for kw in c.keywords) == ['start', 'stop']):
+            raise Unsupported('clip does not return replace(intervals, start=..., stop=...)')
+        kws = {kw.arg: kw.value for kw in c.keywords}
+        k = K(f, {'intervals.start': 'start', 'intervals.stop': 'stop', 'chrom_sizes': 'size'})
+        return (zdef('gen_clip_start', ['start', 'size'], k.z(kws['start'], ['start', 'size']))
+                + zdef('gen_clip_stop', ['stop', 'size'], k.z(kws['stop'], ['stop', 'size'])))
+    emit(defs, 'gen_clip_start', clip)
+
+    def blocks():
+        f = find_function(parse(FILES['cnt']), 'count_encoded')
+        mx = only([n for n in ast.walk(f) if isinstance(n, ast.Assign) and src_of(n.targets[0]) == 'max_size'], 'max_size = ...')
+        if not (isinstance(mx.value, ast.Constant) and isinstance(mx.value.value, int)):
+            raise Unsupported('max_size is not an integer constant')
+        test = only([n for n in ast.walk(f) if isinstance(n, ast.If) and 'max_size' in src_of(n.test)], 'block test')
+        t = test.test
+        if not (isinstance(t, ast.BoolOp) and isinstance(t.op, ast.And) and len(t.values) == 2 and src_of(t.values[1]) == 'weights is None'):
+            raise Unsupported('count_encoded: block test is %s' % src_of(t))
+        v = only(assign_to(test.body, 'counts'), 'counts = sum(...) in the block branch')
+        if not (isinstance(v, ast.Call) and src_of(v.func) == 'sum' and len(v.args) == 1 and isinstance(v.args[0], ast.GeneratorExp)):
+            raise Unsupported('count_encoded: blocks are not summed: %s' % src_of(v))
+        g = v.args[0]
+        gen = g.generators[0]
+        e = g.elt
+        if not (isinstance(gen.iter, ast.Call) and src_of(gen.iter.func) == 'range' and len(gen.iter.args) == 1 and not gen.ifs
+                and src_of(gen.target) == 'i' and isinstance(e, ast.Call) and src_of(e.func) == 'np.bincount'
+                and is_slice(e.args[0], 'values', True, True)):
+            raise Unsupported('count_encoded: block loop is %s' % src_of(g))
+        k = K(f, {'len(values)': 'n'})
+        P = ['n', 'max_size']
+        return (zdef('gen_ceb_max', [], str(mx.value.value))
+                + bdef('gen_ceb_cond', P, k.b(t.values[0], P))
+                + zdef('gen_ceb_nblocks', P, k.z(gen.iter.args[0], P))
+                + zdef('gen_ceb_lo', ['i', 'max_size'], k.z(e.args[0].slice.lower, ['i', 'max_size']))
+                + zdef('gen_ceb_hi', ['i', 'max_size'], k.z(e.args[0].slice.upper, ['i', 'max_size'])))
+    emit(defs, 'gen_ceb_max', blocks)
+
+
 def gen():
     defs = ['From Coq Require Import Bool.\n']
     ce_defs(defs)
@@ -608,4 +691,5 @@ def gen():
     cg_defs(defs)
     gb_defs(defs)
     order_defs(defs)
-    return ', '.join(FILES[k] for k in ('ce', 'parser', 'red', 'cg', 'gb', 'gt')), defs
+    window_defs(defs)
+    return ', '.join(FILES[k] for k in ('ce', 'parser', 'red', 'cg', 'gb', 'gt', 'gi', 'ai', 'cnt')), defs
